@@ -503,3 +503,12 @@ LAWS = [
     Law("polytope_vertices", lambda tier: poly_case(tier), run_poly, nontrivial, lambda c: [f"{c['kind']}{c['d']}"] + (["queried-before-transformed"] if c.get("used") else []), {"quick": 500, "thorough": 10000},
         "transformed polytope has the images of vertices/edges/faces in order", shard=300),
 ]
+
+
+# ------------------------------------------------------------------------------------------- equivalent ways of asking
+from .. import forms as _forms  # noqa: E402
+
+LAWS.append(
+    Law("call_forms", lambda tier: _forms.call_forms_strategy("C07")(tier), _forms.run_call_forms("C07"), lambda c: True, lambda c: [c["entry"], f"d{c['d']}"], {"quick": 500, "thorough": 6000},
+        "the same question asked in several ways (positional / keyword arguments, method / function / operator form, symmetric argument orders) on the objects of the shared pool: same answer", shard=250)
+)
